@@ -275,3 +275,89 @@ radix_range_mp!(c06_q_radix_range_4_r1_mp, 4, 1);
 radix_range_mp!(c06_q_radix_range_4_r37_mp, 4, 37);
 radix_range_mp!(c06_t_radix_range_4_r4294967295_mp, 4, 4294967295);
 // END GENERATED
+
+// SIGN LAYER of BigInt::from_str_radix: which text is handed to the unsigned parser and how its answer is signed, for EVERY ASCII
+// string of the stated length. The unsigned parser is a recorder returning an arbitrary answer (its own language and values are decided
+// by c06_q_text_* and the digit-vector queries in src/biguint/convert.rs).
+static mut S_LEN: usize = 0;
+static mut S_BYTES: [u8; 4] = [0; 4];
+static mut S_RADIX: u32 = 0;
+static mut S_OK: bool = false;
+static mut S_VAL: u64 = 0;
+fn unsigned_parser_rec(s: &str, radix: u32) -> Result<BigUint, ParseBigIntError> {
+    let b = s.as_bytes();
+    let ok: bool = kani::any();
+    let v: u64 = kani::any();
+    unsafe {
+        S_LEN = b.len();
+        let mut i = 0;
+        while i < 4 {
+            S_BYTES[i] = if i < b.len() { b[i] } else { 0 };
+            i += 1;
+        }
+        S_RADIX = radix;
+        S_OK = ok;
+        S_VAL = v;
+    }
+    if ok {
+        Ok(if v == 0 { BigUint::ZERO } else { vc::mk_from(&[v]) })
+    } else {
+        Err(ParseBigIntError::invalid())
+    }
+}
+macro_rules! sign_layer_shape {
+    ($name:ident, $n:expr, $radix:expr) => {
+        #[kani::proof]
+        #[kani::unwind(8)]
+        #[kani::stub(<crate::biguint::BigUint as num_traits::Num>::from_str_radix, unsigned_parser_rec)]
+        #[kani::stub(crate::biguint::verif_common::symbolic, crate::biguint::verif_common::yes)]
+        #[kani::stub(alloc::vec::Vec::with_capacity, vc::vec_with_capacity_ignored)]
+        #[kani::stub(alloc::vec::Vec::shrink_to_fit, vc::noop_shrink)]
+        fn $name() {
+            let b: [u8; $n] = kani::any();
+            let mut i = 0;
+            while i < $n {
+                kani::assume(b[i] < 128);
+                i += 1;
+            }
+            let s = unsafe { core::str::from_utf8_unchecked(&b) };
+            let got = <BigInt as Num>::from_str_radix(s, $radix);
+            if !vc::symbolic() {
+                // native: the real unsigned parser ran; exact reference for the whole signed grammar
+                match ref_parse(&b, $radix, true) {
+                    Some((neg, v)) => match got {
+                        Ok(x) => kani::assert(int_canonical(&x) && vc::eq_window(mag(&x), &[v]) && (is_neg(&x) == (neg && v != 0)), "VERIF BigInt::from_str_radix wrong value/sign"),
+                        Err(_) => kani::assert(false, "VERIF BigInt::from_str_radix rejected a well-formed string"),
+                    },
+                    None => kani::assert(got.is_err(), "VERIF BigInt::from_str_radix accepted an ill-formed string"),
+                }
+                return;
+            }
+            // a leading '-' is consumed unless a '+' follows it (then the unsigned parser sees "-+..." and rejects it)
+            let minus = $n > 0 && b[0] == b'-';
+            let skip = if minus && !($n > 1 && b[1] == b'+') { 1 } else { 0 };
+            kani::assert(unsafe { S_LEN } == $n - skip && unsafe { S_RADIX } == $radix, "VERIF BigInt::from_str_radix hands the wrong text / radix to the unsigned parser");
+            if $n - skip > 0 {
+                let k: usize = kani::any();
+                if k < $n - skip {
+                    kani::assert(unsafe { S_BYTES }[k] == b[k + skip], "VERIF BigInt::from_str_radix hands the wrong text / radix to the unsigned parser");
+                }
+            }
+            match got {
+                Err(_) => kani::assert(!unsafe { S_OK }, "VERIF BigInt::from_str_radix rejected what the unsigned parser accepted"),
+                Ok(x) => {
+                    kani::assert(unsafe { S_OK }, "VERIF BigInt::from_str_radix accepted what the unsigned parser rejected");
+                    let v = unsafe { S_VAL };
+                    kani::assert(int_canonical(&x) && vc::eq_window(mag(&x), &[v]) && (is_neg(&x) == (minus && v != 0)), "VERIF BigInt::from_str_radix wrong value/sign");
+                    if $n > 0 {
+                        kani::cover!(minus && v != 0, "reach: negative value accepted");
+                    }
+                }
+            }
+        }
+    };
+}
+sign_layer_shape!(c06_q_int_sign_n0, 0, 10);
+sign_layer_shape!(c06_q_int_sign_n1, 1, 10);
+sign_layer_shape!(c06_q_int_sign_n2, 2, 10);
+sign_layer_shape!(c06_q_int_sign_n3, 3, 16);
